@@ -126,6 +126,13 @@ CLAIMED = {
             "Bounds: j 0..3 (quick) / 0..6, d -2..2 (quick) / -6..6; Decimal/quantize, repr of decimal-born floats, builtin round, math.floor/ceil/copysign/fmod are models (validated on concrete rows); "
             "INT/MOD/CEILING/FLOOR/EVEN/ODD in exact arithmetic (binary64 quotient artefacts outside the claim).",
             "DESIGN.md 4/C19"),
+    "C07": ("model_checking",
+            "CrossHair symbolic execution of a sequentialisation of two workloads (thread identity as a harness variable, threading.local replaced by an identity-keyed model); counterexamples replayed on real threads",
+            "For every pair of workload kinds {iterative, CSE array, plain} the second workload runs to completion inside the j-th cell evaluation of the first (j, inputs, iteration counts and "
+            "tolerances symbolic) and both must obtain exactly their solo results; load/evaluate/set_value/trim_graph must work on an identity whose thread-local namespace is empty.",
+            "Bounds: j 1..4, ints |v|<=3, iterations 1..2(3); NOT covered: schedules in which the second workload is suspended while the first continues (needs coroutines - e.g. a shared context *stack* "
+            "is invisible to nested schedules), preemption inside library functions, races on _Cell.ctr.",
+            "DESIGN.md 4/C07"),
 }
 
 NOT_YET = "check not built yet in this round (machinery under construction); see DESIGN.md section 4"
